@@ -4,7 +4,7 @@ here - the solver derives colliding names from the code.  One harness per naming
 on the elaborated objects (identity), then on the exported package (net partition) with the names
 realised (protobuf rejects proxy strings)."""
 from vlib import env
-from vlib.spec import harness, parts_over
+from vlib.spec import harness, parts_over, parts_product
 import hdl21 as h
 from vlib.pkgread import pkg_nets, check_package
 
@@ -248,3 +248,107 @@ for _k, _txt in {5: "array element (r_0, r_1)", 6: "pair member (q_p, q_n)", 13:
         "C05", args="nm: str, late: bool", pre=["len(nm) >= 1"], tiers=_T(3), sample=("r_0" if _k == 5 else ("i_a" if _k == 11 else "q_p"), True),
         bounds=f"naming site: {_txt}; designer instance name = any non-empty string of length <= 3 (quick) / <= 8 (thorough); declared before or after",
         generalises="the designer's instance name as a symbolic string; declaration order", outside="longer names")(_f)
+
+
+def _namer():
+    """the elaborator's shared name-inventing helper, with its length limit as a parameter (None if a refactor moved it)"""
+    try:
+        from hdl21.elab.passes.base import ElabPass
+        import inspect
+        if "maxlen" not in inspect.signature(ElabPass.flatname).parameters:
+            return None
+        return ElabPass([])
+    except Exception:
+        return None
+
+
+_SEGS = [("i", "p"), ("", ""), ("b_x", "y_"), ("i" * 300, "p" * 208)]  # (the last: a 509-character candidate, next to the real limit)
+
+
+@harness("C05", args="sel: int, n: int, gap: int, maxlen: int", pre=["0 <= sel <= 3", "0 <= n <= 4", "0 <= gap <= 3", "0 <= maxlen"],
+         tiers={"quick": {"timeout": 150, "parts": parts_over("sel", range(4))},
+                "thorough": {"timeout": 600, "parts": parts_product(parts_over("sel", range(4)), parts_over("n", range(5)))}},
+         sample=(0, 2, 1, 5),
+         bounds="the shared name-inventing helper driven as a unit with a SYMBOLIC, UNBOUNDED length limit (the real limit, 511, is one value of it): 4 segment pairs (short, empty, with underscores, 509 characters), taken names = the first n (<= 4) underscore candidates plus the candidate `gap` (<= 3) places further on; whatever it returns is not a taken name",
+         generalises="the length limit as an unbounded integer; n, gap and the segment pair are solver-enumerated selectors", outside="more than 4 consecutive taken candidates; taken names that are not underscore candidates (they cannot collide)")
+def flatname_kernel(sel, n, gap, maxlen):
+    sel, n, gap = env.pick(sel, 0, 3), env.pick(n, 0, 4), env.pick(gap, 0, 3)
+    with env.notrace():
+        p = _namer()
+    if p is None:
+        return True
+    a, b = _SEGS[sel]
+    base = a + "_" + b
+    avoid = {}
+    for j in range(n):
+        avoid[base + "_" * j] = None
+    avoid[base + "_" * (n + gap)] = None
+    try:
+        r = p.flatname([a, b], avoid=avoid, maxlen=maxlen)
+    except RuntimeError:
+        env.reached()
+        return True  # refused: no capture
+    env.reached()
+    return r not in avoid
+
+
+@harness("C05", args="seed: int", concrete=True, sample=(0,),
+         bounds="concrete seed: the four signal-naming sites (named / unnamed no-connect, port-reference signal, flattened bundle member) with designer names long enough to put the invented candidate at 509..512 characters, i.e. on both sides of the 511-character limit: refusal, or a fresh name with the designer's signal and connections intact")
+def length_limit(seed):
+    bad = []
+    for L in (509, 510, 511, 512):
+        for site in (0, 1, 2, 3):
+            env.reset_all()
+            m = h.Module(name="Top")
+            C = _cell()
+            s = m.add(h.Signal(name="s"))
+            if site == 0:
+                cand = "x" * L
+                m.add(h.Instance(name="i", of=C({})))
+                m.i.connect("a", s)
+                m.i.connect("b", h.NoConn(name=cand))
+                priv = [("i", "b")]
+            elif site == 1:
+                iname = "i" * (L - 2)
+                cand = iname + "_b"
+                inst = m.add(h.Instance(name=iname, of=C({})))
+                inst.connect("a", s)
+                inst.connect("b", h.NoConn())
+                priv = [(iname, "b")]
+            elif site == 2:
+                iname = "i" * (L - 2)
+                cand = iname + "_a"
+                inst = m.add(h.Instance(name=iname, of=C({})))
+                inst.connect("b", s)
+                m.j = C({})(a=inst.a, b=s)
+                priv = [(iname, "a"), ("j", "a")]
+            else:
+                bname = "b" * (L - 2)
+                cand = bname + "_x"
+                B = h.Bundle(name="B")
+                B.add(h.Signal(name="x"))
+                bi = m.add(h.BundleInstance(name=bname, of=B))
+                m.i = C({})(a=s, b=bi.x)
+                priv = [("i", "b")]
+            mine = m.add(h.Signal(name=cand))
+            m.u = C({})(a=mine, b=mine)
+            try:
+                h.elaborate(m)
+            except RecursionError:
+                raise
+            except Exception:
+                continue
+            if m.signals.get(cand, None) is not mine or m.instances["u"].conns["a"] is not mine or m.instances["u"].conns["b"] is not mine:
+                bad.append((L, site, "designer signal replaced"))
+                continue
+            for i, p in priv:
+                c = m.instances[i].conns[p]
+                if c is mine or c.name == cand or m.signals.get(c.name, None) is not c:
+                    bad.append((L, site, "invented net captured the designer's name"))
+    env.COUNTS["reached"] += 1
+    if bad:
+        WHY_LIMIT["why"] = bad[:4]
+    return not bad
+
+
+WHY_LIMIT = {}
